@@ -23,6 +23,7 @@ import ssl
 from collections.abc import Callable, Iterator
 from typing import Any, Tuple
 
+from tornado import _verif
 from tornado import gen
 from tornado.concurrent import Future, future_add_done_callback
 from tornado.gen import TimeoutError
@@ -68,6 +69,8 @@ class _Connector:
         self.remaining = len(addrinfo)
         self.primary_addrs, self.secondary_addrs = self.split(addrinfo)
         self.streams: set[IOStream] = set()
+        if _verif.ENABLED:
+            self.streams = _verif.OrderedSet()  # type: ignore
 
     @staticmethod
     def split(
